@@ -336,3 +336,38 @@ Proof.
   destruct (Nat.eqb_spec (p_sections p - 1 - k) 0) as [E2|E2];
   destruct (Nat.eqb_spec (S (p_sections p - 1 - k)) (p_sections p)) as [E3|E3]; try lia; f_equal; lia.
 Qed.
+
+(* ---- n sections = n one-section pipes in series (clause 3, parameter level) ---- *)
+Lemma section_heights_nth hf ht n k : (1 <= n)%nat -> (k <= n)%nat ->
+  nth k (Rsection_heights hf ht n) 0 = hf + (ht - hf) * INR k / INR n.
+Proof.
+  intros Hn Hk.
+  assert (Hn0 : INR n <> 0) by (apply not_0_INR; lia).
+  induction k as [|k IH].
+  - destruct (section_heights_ends hf ht n Hn) as [E0 _]. rewrite E0. simpl. field. exact Hn0.
+  - pose proof (section_heights_step hf ht n k Hn ltac:(lia)) as Hs.
+    rewrite IH in Hs by lia. rewrite S_INR.
+    apply (Rplus_eq_reg_l (- (hf + (ht - hf) * INR k / INR n))).
+    replace (- (hf + (ht - hf) * INR k / INR n) + nth (S k) (Rsection_heights hf ht n) 0)
+      with (- (hf + (ht - hf) * INR k / INR n - nth (S k) (Rsection_heights hf ht n) 0)) by ring.
+    rewrite Hs. field. exact Hn0.
+Qed.
+
+(* section k of an n-section pipe has exactly the residual of a one-section pipe of length / n and
+   loss coefficient / n between junctions at the interpolated heights, fed with the same two pressures *)
+Lemma section_is_series_piece : forall n k A D lam len_km zeta m dl rho hf ht (q : nat -> R),
+  (1 <= n)%nat -> (k < n)%nat ->
+  let h := fun i : nat => hf + (ht - hf) * INR i / INR n in
+  section_residual_np A D lam len_km zeta m dl rho hf ht q n k
+  = section_residual_np A D lam (len_km / INR n) (zeta / INR n) m dl rho (h k) (h (S k)) (fun i => q (k + i)%nat) 1 0.
+Proof.
+  intros n k A D lam len_km zeta m dl rho hf ht q Hn Hk h.
+  assert (Hn0 : INR n <> 0) by (apply not_0_INR; lia).
+  unfold section_residual_np.
+  destruct (section_heights_ends (h k) (h (S k)) 1 (le_n 1)) as [E0 E1]. rewrite E0, E1.
+  destruct (sec_single (len_km / INR n) (zeta / INR n)) as [El Ez]. rewrite El, Ez.
+  rewrite (section_heights_nth hf ht n k Hn ltac:(lia)), (section_heights_nth hf ht n (S k) Hn ltac:(lia)).
+  replace (k + 1)%nat with (S k) by lia. replace (k + 0)%nat with k by lia.
+  unfold Rsec_length, Rsec_zeta, sec_length, sec_zeta. rewrite Rthousand. fold Rinj. rewrite Rinj_INR.
+  unfold h. unfold hyd_incomp_np_load_vec. cbv zeta. unfold Rdiv. ring.
+Qed.
